@@ -7,6 +7,9 @@ import (
 	"encoding/json"
 	"errors"
 	"fmt"
+
+	"github.com/fxamacker/cbor/v2"
+	"github.com/veraison/eat"
 )
 
 // IClaimsBase defines an interface for working with all EAT-based claims
@@ -179,7 +182,7 @@ func DecodeClaimsFromCBOR(buf []byte) (IClaims, error) {
 		// empty, and the decoding will proceed correctly. P1's -7500
 		// profile field will then be validated as part of the full
 		// claims decoding in UnmarshalCBOR() further down.
-		Profile string `cbor:"265,keyasint"`
+		Profile cbor.RawMessage `cbor:"265,keyasint"`
 	}{}
 
 	err := dm.Unmarshal(buf, &selector)
@@ -187,9 +190,14 @@ func DecodeClaimsFromCBOR(buf []byte) (IClaims, error) {
 		return nil, err
 	}
 
-	entry, ok := profilesRegister[selector.Profile]
+	profileName, err := profileNameFromCBOR(selector.Profile)
+	if err != nil {
+		return nil, err
+	}
+
+	entry, ok := profilesRegister[profileName]
 	if !ok {
-		return nil, fmt.Errorf("unknown profile: %q", selector.Profile)
+		return nil, fmt.Errorf("unknown profile: %q", profileName)
 	}
 
 	claims := entry.Profile.GetClaims()
@@ -199,6 +207,30 @@ func DecodeClaimsFromCBOR(buf []byte) (IClaims, error) {
 	}
 
 	return claims, nil
+}
+
+// profileNameFromCBOR returns the name carried by an encoded eat_profile
+// claim: a text string as it is, an OID (which EAT encodes as a byte string)
+// in its dotted-decimal form. An absent or null claim yields "".
+func profileNameFromCBOR(raw cbor.RawMessage) (string, error) {
+	if len(raw) == 0 {
+		return "", nil
+	}
+
+	var name string
+
+	err := dm.Unmarshal(raw, &name)
+	if err == nil {
+		return name, nil
+	}
+
+	var profile eat.Profile
+
+	if perr := profile.UnmarshalCBOR(raw); perr != nil || !profile.IsOID() {
+		return "", err
+	}
+
+	return profile.Get()
 }
 
 // Deprecated: use DecodeAndValidateClaimsFromJSON instead.
